@@ -74,6 +74,8 @@ pub fn exec(op: &str, a: &Value) -> Option<Value> {
         "CPDT.toZoned" => run(|| arg_datetime(&a["dt"])?.to_zoned_date_time(&tz(a)?, dis(a)), p_zdt),
         // fault injection (verification hook): panics while holding TZ_PROVIDER
         "Lock.panic" => run_inf(|| temporal_rs::verif::panic_holding_provider_lock(), |_| Value::Null),
+        // one step of a model history, re-run from scratch in a fresh process (used by `vcheck C20 --replay`)
+        "ProviderLock.call" => crate::sp_c20::exec_history_step(a),
         // observation, not a call of the API under test
         "Lock.poisoned" => json!({"kind": "ok", "val": temporal_rs::verif::provider_lock_poisoned()}),
         _ => return None,
